@@ -277,7 +277,13 @@ pub fn scenario(rng: &mut Rng, tier: Tier) -> Scenario {
     let mut ops = vec![];
     // every slot is filled early so that renders have something to work on
     for slot in 0..n_slots {
-        ops.push(Op::Compile { subj: rng.usize_below(n_subjects), slot, script: vec![], twice: false });
+        // half of the handles are not looked at when they are created: their first render, or
+        // their first table query, comes from a later operation
+        if rng.chance(1, 2) {
+            ops.push(Op::CompileQuiet { subj: rng.usize_below(n_subjects), slot });
+        } else {
+            ops.push(Op::Compile { subj: rng.usize_below(n_subjects), slot, script: vec![], twice: false });
+        }
     }
     let w_render = rng.range(4, 10);
     let w_iomap = rng.range(1, 4);
@@ -387,7 +393,8 @@ fn show(path: &str) -> String {
 
 struct Handle {
     compile_op: usize,
-    table: Table,
+    /// destination table as first observed (at compile time, or at the first io_map())
+    table: Option<Table>,
     /// first render per path index: (op, text)
     renders: BTreeMap<usize, (usize, String)>,
     /// tokens of the first rendering: (op, path index, tokens)
@@ -416,11 +423,19 @@ pub fn judge(sc: &Scenario, obs: &[(usize, Obs)]) -> Judgement {
         // a render is either an explicit Render op or the FIXED_PATH render taken at compile time
         let render: Option<(usize, usize, &String)> = match o {
             Obs::Compiled { slot, text: Ok(t), table, .. } => {
-                if let Some(old) = handles.insert(*slot, Handle { compile_op: *i, table: table.clone(), renders: BTreeMap::new(), reference: None, reference_text: None, device_index: None }) {
+                if let Some(old) = handles.insert(*slot, Handle { compile_op: *i, table: Some(table.clone()), renders: BTreeMap::new(), reference: None, reference_text: None, device_index: None }) {
                     retired.push(old);
                 }
                 distinct_paths_rendered.remove(slot);
                 Some((*slot, 0, t))
+            }
+            Obs::CompiledQuiet { slot, ok: true, .. } => {
+                if let Some(old) = handles.insert(*slot, Handle { compile_op: *i, table: None, renders: BTreeMap::new(), reference: None, reference_text: None, device_index: None }) {
+                    retired.push(old);
+                }
+                distinct_paths_rendered.remove(slot);
+                j.bump("handles_first_touched_by_a_later_operation", 1);
+                None
             }
             Obs::Rendered { slot, path, text, clock_reads } => {
                 if *clock_reads > 0 {
@@ -430,16 +445,21 @@ pub fn judge(sc: &Scenario, obs: &[(usize, Obs)]) -> Judgement {
             }
             Obs::IoMapped { slot, table } => {
                 j.bump("table_queries", 1);
-                if let Some(h) = handles.get(slot) {
-                    if h.table != *table {
-                        fail!(
-                            "table-changed",
-                            vec![h.compile_op, *i],
-                            "slot {slot}: destination table at op {i} differs from the one observed when the handle was compiled at op {}: {:?} vs {:?}",
-                            h.compile_op,
-                            table,
-                            h.table
-                        );
+                if let Some(h) = handles.get_mut(slot) {
+                    match &h.table {
+                        None => h.table = Some(table.clone()),
+                        Some(first) => {
+                            if first != table {
+                                fail!(
+                                    "table-changed",
+                                    vec![h.compile_op, *i],
+                                    "slot {slot}: destination table at op {i} differs from the one first observed for the handle compiled at op {}: {:?} vs {:?}",
+                                    h.compile_op,
+                                    table,
+                                    first
+                                );
+                            }
+                        }
                     }
                 }
                 None
